@@ -209,6 +209,27 @@ def run_prim(c) -> CaseResult:
         ok = torch.autograd.gradcheck(lambda t: U.residual_apply(f, t, tau), (xs,), eps=1e-6, atol=1e-7, rtol=1e-5, raise_exception=False)
         if ok is not True:
             res.fail("C06.gradcheck", f"gradcheck on residual_apply failed (tau={tau}, branch={c['branch']})")
+    # a branch that starts with an in-place op (nn.ReLU(inplace=True) is common in residual branches), with gradient tracking,
+    # under no_grad and for an input that does not require grad: the skip path and the caller's x must not be touched
+    for mode in ("grad", "no_grad", "no-requires-grad"):
+        xi = x0.clone()
+        if mode == "grad":
+            xi.requires_grad_()
+        keep = xi.detach().clone()
+        try:
+            if mode == "no_grad":
+                with torch.no_grad():
+                    yi = U.residual_apply(lambda r: torch.relu_(r) * 1.5, xi, tau)
+            else:
+                yi = U.residual_apply(lambda r: torch.relu_(r) * 1.5, xi, tau)
+        except Exception as e:  # noqa: BLE001
+            res.fail(exc_bucket(f"C06.inplace-branch.raises:{mode}", e), f"{type(e).__name__}: {e}")
+            continue
+        want = (keep + tau * torch.relu(keep) * 1.5) / math.sqrt(1 + tau * tau)
+        if not torch.equal(xi.detach(), keep):
+            res.fail(f"C06.inplace-branch.input-modified:{mode}", f"the caller's x was modified by an in-place op inside the branch (tau={tau})")
+        elif not bool(((yi.detach() - want).abs() <= 1e-12 * max(1e-300, float(want.abs().max()))).all()):
+            res.fail(f"C06.inplace-branch.value:{mode}", f"output differs from (x + tau f(x))/sqrt(1+tau^2) when the branch starts with an in-place op (tau={tau})")
     res.nontrivial = tau != 1.0
     res.labels.append("primitive")
     return res
